@@ -9,8 +9,8 @@
 //!   strong count == strong owners + live strong guards that own a reference,
 //!   weak   count == weak owners   + live weak guards that own a reference,
 //!   (whether a guard borrows through a slot or owns is read off the slots themselves - the number
-//!   of slots holding an address before and after a load - and a borrowing guard becomes an owning
-//!   one exactly when a container of its own class gives its allocation up),
+//!   of slots holding an address before and after a load - and so is the moment a borrowing guard
+//!   becomes an owning one: its slot no longer holds its address after some write),
 //!   occupied slots == borrowing guards, address by address,
 //!   the value is destroyed iff it has no strong owner and no strong guard (exactly once),
 //!   a guard / load / swap / compare_and_swap denotes the model's value, a Weak upgrades iff alive.
